@@ -84,7 +84,7 @@ type ContractSet struct {
 	list   []*Contract
 }
 
-var reClause = regexp.MustCompile(`^(requires|ensures|assume)(\[[A-Za-z0-9, ]*\])?\s+(?:@([A-Za-z0-9_.]+)\s+)?(.*)$`)
+var reClause = regexp.MustCompile(`^(requires|ensures|assume|axiom)(\[[A-Za-z0-9, ]*\])?\s+(?:@([A-Za-z0-9_.]+)\s+)?(.*)$`)
 var reLoop = regexp.MustCompile(`^loop\s+(\d+)\s+(invariant|decreases)(\[[A-Za-z0-9, ]*\])?\s+(?:@([A-Za-z0-9_.]+)\s+)?(.*)$`)
 var reAlloc = regexp.MustCompile(`^allocbound(\[[A-Za-z0-9, ]*\])\s+(.*)$`)
 
@@ -221,7 +221,9 @@ func (cs *ContractSet) LoadFile(pkgPath, path string) error {
 				switch c.kind {
 				case "requires":
 					cur.requires = append(cur.requires, c)
-				case "ensures":
+				case "ensures", "axiom":
+					// axiom: a postcondition callers may assume but the body is not checked
+					// against (value of an uninterpreted library result); reported as trusted
 					cur.ensures = append(cur.ensures, c)
 				case "assume":
 					cur.requires = append(cur.requires, c)
